@@ -9,11 +9,23 @@ import random
 from contracts.proxy_harness import Harness
 
 
+class _SyncQueue(queue.Queue):
+    """Stand-in for the two multiprocessing.Queue objects of HTTPFlowContext inside this single-process harness: same
+    put/get interface and the same pickling of every item, but an item is visible as soon as put() returns. (A
+    multiprocessing.Queue hands items to a feeder thread; under CPU load the 50 ms drain below missed items that were
+    still in flight and reported flows as never handed back - a harness race, not a property of the code.)"""
+    def put(self, item, block=True, timeout=None):
+        import pickle
+        super().put(pickle.loads(pickle.dumps(item)), block, timeout)
+
+
 class HttpHarness(Harness):
     def __init__(self, addons=(), n_regions=2):
         super().__init__(addons=addons, n_regions=n_regions)
         from hippolyzer.lib.proxy.http_event_manager import MITMProxyEventManager
         self.flow_context = self.session_manager.flow_context
+        self.flow_context.from_proxy_queue = _SyncQueue()
+        self.flow_context.to_proxy_queue = _SyncQueue()
         self.mgr = MITMProxyEventManager(self.session_manager, self.flow_context)
         self.open_circuits()
 
@@ -21,7 +33,7 @@ class HttpHarness(Harness):
         out = []
         while True:
             try:
-                out.append(q.get(True, 0.05))
+                out.append(q.get(False))
             except queue.Empty:
                 return out
 
